@@ -87,6 +87,9 @@ func kindType(name string) uint32 {
 
 var proposeMode bool
 
+// see cmd/casper: a watchdog expiry is confirmed by a second run with a six times longer watchdog
+var watchdog = 30 * time.Second
+
 func replay(d doc) *divergence {
 	if proposeMode {
 		node.ConfigureLedgerAs(2, 1) // the node is validator 1 of 2: it proposes in its own slots, its lone vote never justifies
@@ -100,7 +103,7 @@ func replay(d doc) *divergence {
 	w := node.NewWorld(env)
 	m := node.BuildMenu(w)
 	for _, b := range m.Prefix {
-		if orphan, err, blocked := w.Process(node.CopyBlock(b, nil), 15*time.Second); err != nil || orphan || blocked {
+		if orphan, err, blocked := w.Process(node.CopyBlock(b, nil), watchdog); err != nil || orphan || blocked {
 			vh.Fatal("funding prefix block %d not accepted: orphan=%v err=%v blocked=%v", b.Height, orphan, err, blocked)
 		}
 	}
@@ -196,7 +199,7 @@ func replay(d doc) *divergence {
 		last = i
 		switch c.Op {
 		case "deliver":
-			orphan, perr, blocked := w.Process(node.CopyBlock(w.Blocks[c.B], nil), 15*time.Second)
+			orphan, perr, blocked := w.Process(node.CopyBlock(w.Blocks[c.B], nil), watchdog)
 			if blocked {
 				return &divergence{i, "C12", "blocked", fmt.Sprintf("ProcessBlock(block %d) did not return within 15s", c.B)}
 			}
@@ -363,7 +366,7 @@ func replay(d doc) *divergence {
 		for _, tx := range blk.Transactions[1:] {
 			ids = append(ids, m.TxIDOf[tx.ID])
 		}
-		orphan, err, blocked := w.Process(node.CopyBlock(blk, nil), 15*time.Second)
+		orphan, err, blocked := w.Process(node.CopyBlock(blk, nil), watchdog)
 		cls := "mid-epoch"
 		if blk.Height%2 == 1 {
 			cls = "pays-rewards"
@@ -451,7 +454,13 @@ func main() {
 				}
 			}
 			shapes[shape(d)] = true
-			if dv := replay(d); dv != nil {
+			dv := replay(d)
+			if dv != nil && strings.Contains(dv.What, "blocked") {
+				watchdog *= 6
+				dv = replay(d)
+				watchdog /= 6
+			}
+			if dv != nil {
 				vh.Violation(dv.Prop+":ledger:"+dv.What, dv.Msg, map[string]interface{}{"engine": "ledger", "calls": d.Calls, "obs": d.Obs, "diverges_at": dv.Step, "prop": dv.Prop, "also": alsoProps(dv)})
 			}
 			if cases%3000 == 17 {
